@@ -157,6 +157,27 @@ def run_property(pid, tier, seed):
             except Exception as e:
                 corr_broken.append((part, None, "correspondence run failed: %s" % e))
                 continue
+            # a failure must reproduce: the failing cases are run once more in a fresh harness
+            # process and only what fails again (same kind) is kept; a replay that does not
+            # replay demonstrates nothing, and timeouts under machine load must not raise alarms
+            suspects = sorted(set(ev["oracle"]) | set(ev["corr"]))
+            if suspects:
+                first_obs = {i: ev["obs"][i] for i in suspects}
+                try:
+                    ev2 = eval_part(part, binary, [inputs[i] for i in suspects], work, part.name + "_confirm")
+                    again_o = {suspects[j] for j in ev2["oracle"]}
+                    again_c = {suspects[j] for j in ev2["corr"]}
+                except Exception as e:
+                    C.log("confirmation run failed:", e)
+                    again_o, again_c = set(ev["oracle"]), set(ev["corr"])
+                dropped = [i for i in suspects if (i in ev["oracle"] and i not in again_o) or (i in ev["corr"] and i not in again_c)]
+                if dropped:
+                    cov.setdefault("unreproduced_failures", []).extend(
+                        {"part": part.name, "input": part.describe(inputs[i]["input"]),
+                         "first_observation": part.describe_obs(first_obs[i])} for i in dropped[:5])
+                    C.log("unreproduced failures (dropped): %d in part %s" % (len(dropped), part.name))
+                ev["oracle"] = [i for i in ev["oracle"] if i in again_o]
+                ev["corr"] = [i for i in ev["corr"] if i in again_c]
             cov["evaluations"] += len(inputs)
             hist = {}
             for i, br in enumerate(ev["branches"]):
